@@ -837,10 +837,13 @@ impl FileScheduler {
 
         let mut merged_requests = Vec::with_capacity(request.len());
 
-        if !request.is_empty() {
-            let mut curr_interval = request[0].clone();
+        // Empty ranges need no I/O.  They take no part in coalescing (an empty range must not become
+        // the interval later ranges are merged into) and are answered with an empty buffer below.
+        let mut non_empty = request.iter().filter(|req| !req.is_empty());
+        if let Some(first) = non_empty.next() {
+            let mut curr_interval = first.clone();
 
-            for req in request.iter().skip(1) {
+            for req in non_empty {
                 if is_close_together(&curr_interval, req, self.block_size) {
                     curr_interval.end = curr_interval.end.max(req.end);
                 } else {
@@ -885,9 +888,18 @@ impl FileScheduler {
             let bytes_vec = bytes_vec_fut.await?;
 
             let mut orig_index = 0;
-            while (updated_index < updated_requests.len()) && (orig_index < request.len()) {
-                let updated_range = &updated_requests[updated_index];
+            while orig_index < request.len() {
                 let orig_range = &request[orig_index];
+                if orig_range.is_empty() {
+                    // An empty range never overlaps anything; it gets an empty buffer
+                    final_bytes.push(Bytes::new());
+                    orig_index += 1;
+                    continue;
+                }
+                if updated_index >= updated_requests.len() {
+                    break;
+                }
+                let updated_range = &updated_requests[updated_index];
                 let byte_offset = updated_range.start as usize;
 
                 if is_overlapping(updated_range, orig_range) {
@@ -905,13 +917,16 @@ impl FileScheduler {
                         let mut merged_bytes = Vec::with_capacity(orig_size as usize);
                         merged_bytes.extend_from_slice(&bytes_vec[updated_index].slice(start..));
                         let mut copy_offset = merged_bytes.len() as u64;
+                        // `updated_index` stays on the piece this range starts in: the next range may
+                        // start in the same piece (e.g. a range contained in this one)
+                        let mut copy_index = updated_index;
                         while copy_offset < orig_size {
-                            updated_index += 1;
-                            let next_range = &updated_requests[updated_index];
+                            copy_index += 1;
+                            let next_range = &updated_requests[copy_index];
                             let bytes_to_take =
                                 (orig_size - copy_offset).min(next_range.end - next_range.start);
                             merged_bytes.extend_from_slice(
-                                &bytes_vec[updated_index].slice(0..bytes_to_take as usize),
+                                &bytes_vec[copy_index].slice(0..bytes_to_take as usize),
                             );
                             copy_offset += bytes_to_take;
                         }
@@ -1128,6 +1143,62 @@ mod tests {
             );
         }
         assert_eq!(11, scheduler.stats().iops);
+    }
+
+    #[tokio::test]
+    async fn test_empty_and_contained_ranges() {
+        let some_path = Path::parse("foo").unwrap();
+        let obj_store = Arc::new(ObjectStore::memory());
+        let some_data = (0..=255_u8).cycle().take(4000).collect::<Vec<_>>();
+        obj_store.put(&some_path, &some_data).await.unwrap();
+
+        let scheduler = ScanScheduler::new(obj_store, SchedulerConfig::default_for_testing());
+        let file_scheduler = scheduler
+            .open_file(&some_path, &CachedFileSize::unknown())
+            .await
+            .unwrap();
+        // Force splitting of anything larger than 50 bytes
+        let small_iops = FileScheduler {
+            max_iop_size: 50,
+            ..file_scheduler.clone()
+        };
+
+        let check = |request: Vec<Range<u64>>, bytes: Vec<Bytes>| {
+            assert_eq!(request.len(), bytes.len(), "{:?}", request);
+            for (range, bytes) in request.iter().zip(bytes.iter()) {
+                assert_eq!(
+                    bytes.as_ref(),
+                    &some_data[range.start as usize..range.end as usize],
+                    "{:?}",
+                    request
+                );
+            }
+        };
+
+        #[allow(clippy::single_range_in_vec_init)]
+        let requests = vec![
+            // Empty ranges: alone, at the edges of a coalesced interval, far away, between ranges
+            vec![5..5],
+            vec![0..0],
+            vec![5..5, 5..10],
+            vec![0..10, 10..10],
+            vec![1000..1100, 1..1, 1100..1150],
+            vec![1000..1100, 3000..3000, 1200..1300],
+            // A range that starts inside an earlier piece of a split range
+            vec![0..100, 10..20],
+            vec![0..100, 40..60],
+            vec![0..100, 60..70],
+            vec![0..120, 0..120, 30..110, 119..130],
+        ];
+        for request in requests {
+            let bytes = file_scheduler
+                .submit_request(request.clone(), 0)
+                .await
+                .unwrap();
+            check(request.clone(), bytes);
+            let bytes = small_iops.submit_request(request.clone(), 0).await.unwrap();
+            check(request, bytes);
+        }
     }
 
     #[tokio::test]
